@@ -2,6 +2,7 @@
 //!
 //! usage: c03 gen <quick|thorough> [n]  — generate programs; one line per case:
 //!            <id>\t<ctx sexp>\t<prog sexp>\t<result>\t<source hex>\t<stats>\t<real instruction stream>
+//!        c03 argbind <quick|thorough>  — the argument-binding box (c03_args.inc), same case lines
 //!        c03 batch                     — stdin lines `<id>\t<ctx sexp>\t<prog sexp>` -> same case lines
 //!                                        (replay, shrinking, corpus)
 //!        c03 src <source> [ctx sexp]   — render a hand-written source, dumping the parsed AST as sexp
@@ -89,6 +90,7 @@ include!("c03_sexp.inc");
 include!("c03_parse.inc");
 include!("c03_gen.inc");
 include!("c03_wrap.inc");
+include!("c03_args.inc");
 
 // ------------------------------------------------------------------------------------------ run
 fn cv_value(v: &CV) -> Value {
@@ -217,6 +219,10 @@ fn main() {
                 let p: &[S] = if kind == "expr" { &[] } else { &winfo.wprog };
                 writeln!(out, "{}", run_wrap_case(&format!("g{}w", i), &ctx, kind, p, &tail, &format!("kinds=wrap-{}", kind))).unwrap();
             }
+        }
+        Some("argbind") => {
+            let tier = args.get(2).map(|s| s.as_str()).unwrap_or("quick");
+            gen_argbind(tier, &mut out);
         }
         Some("batch") => {
             let mut line = String::new();
